@@ -460,3 +460,184 @@ Proof.
     unfold run_pinned. rewrite H1, H2.
     rewrite (run_loop_err _ (step_pinned_err f) _ _ _ H1), (run_loop_err _ (step_pinned_err f) _ _ _ H2). reflexivity.
 Qed.
+
+(* ------------------------------------------------------------------ the namer of a reference group *)
+Lemma cmp_lt_trans a b c : String.compare a b = Lt -> String.compare b c = Lt -> String.compare a c = Lt.
+Proof.
+  intros H1 H2. apply String_as_OT.cmp_lt. apply String_as_OT.cmp_lt in H1. apply String_as_OT.cmp_lt in H2.
+  exact (String_as_OT.lt_trans _ _ _ H1 H2).
+Qed.
+
+Lemma cmp_eq a b : String.compare a b = Eq -> a = b.
+Proof. apply String.compare_eq_iff. Qed.
+
+Lemma cmp_refl a : String.compare a a = Eq.
+Proof. apply String_as_OT.cmp_eq. reflexivity. Qed.
+
+Lemma sleb_trans a b c : String.leb a b = true -> String.leb b c = true -> String.leb a c = true.
+Proof.
+  unfold String.leb. destruct (String.compare a b) eqn:E1; try discriminate; intros _;
+    destruct (String.compare b c) eqn:E2; try discriminate; intros _.
+  - apply cmp_eq in E1. subst. rewrite E2. reflexivity.
+  - apply cmp_eq in E1. subst. rewrite E2. reflexivity.
+  - apply cmp_eq in E2. subst. rewrite E1. reflexivity.
+  - rewrite (cmp_lt_trans _ _ _ E1 E2). reflexivity.
+Qed.
+
+Lemma pref_leb_refl a : pref_leb a a = true.
+Proof. unfold pref_leb, String.leb. rewrite !cmp_refl. reflexivity. Qed.
+
+Lemma pref_leb_total a b : pref_leb a b = true \/ pref_leb b a = true.
+Proof.
+  unfold pref_leb. rewrite (String.compare_antisym (pr_inst b) (pr_inst a)).
+  destruct (String.compare (pr_inst a) (pr_inst b)); simpl; auto.
+  destruct (String.leb_total (pr_port a) (pr_port b)); auto.
+Qed.
+
+Lemma pref_leb_trans a b c : pref_leb a b = true -> pref_leb b c = true -> pref_leb a c = true.
+Proof.
+  unfold pref_leb.
+  destruct (String.compare (pr_inst a) (pr_inst b)) eqn:E1; try discriminate;
+    destruct (String.compare (pr_inst b) (pr_inst c)) eqn:E2; try discriminate; intros H1 H2.
+  - apply cmp_eq in E1. apply cmp_eq in E2. rewrite E1, E2, cmp_refl. exact (sleb_trans _ _ _ H1 H2).
+  - apply cmp_eq in E1. rewrite E1, E2. reflexivity.
+  - apply cmp_eq in E2. rewrite <- E2, E1. reflexivity.
+  - rewrite (cmp_lt_trans _ _ _ E1 E2). reflexivity.
+Qed.
+
+Lemma pref_leb_antisym a b : pref_leb a b = true -> pref_leb b a = true ->
+  pr_inst a = pr_inst b /\ pr_port a = pr_port b.
+Proof.
+  unfold pref_leb. rewrite (String.compare_antisym (pr_inst b) (pr_inst a)).
+  destruct (String.compare (pr_inst a) (pr_inst b)) eqn:E; simpl; try discriminate.
+  apply cmp_eq in E. intros H1 H2. split; [exact E | exact (String.leb_antisym _ _ H1 H2)].
+Qed.
+
+Definition name_key (p : pref) : string * string := (pr_inst p, pr_port p).
+
+Lemma first_min_spec : forall t x,
+  In (first_min pref_ltb x t) (x :: t) /\ forall y, In y (x :: t) -> pref_leb (first_min pref_ltb x t) y = true.
+Proof.
+  unfold first_min. induction t as [|a t IH]; intros x.
+  - simpl. split; [left; reflexivity|]. intros y [<-|[]]. apply pref_leb_refl.
+  - cbn [fold_left]. set (x' := if pref_ltb a x then a else x).
+    destruct (IH x') as [I1 I2].
+    assert (Hx : pref_leb x' x = true /\ pref_leb x' a = true /\ (x' = x \/ x' = a)).
+    { unfold x', pref_ltb. destruct (pref_leb x a) eqn:E; simpl.
+      - repeat split; [apply pref_leb_refl | exact E | left; reflexivity].
+      - destruct (pref_leb_total x a) as [H|H]; [congruence|]. repeat split; [exact H | apply pref_leb_refl | right; reflexivity]. }
+    destruct Hx as [X1 [X2 X3]]. split.
+    + destruct I1 as [I1|I1]; [|right; right; exact I1]. rewrite <- I1. destruct X3 as [->| ->]; [left | right; left]; reflexivity.
+    + intros y [<-|[<-|Hy]].
+      * apply (pref_leb_trans _ x'); [apply I2; left; reflexivity | exact X1].
+      * apply (pref_leb_trans _ x'); [apply I2; left; reflexivity | exact X2].
+      * apply I2. right; exact Hy.
+Qed.
+
+Lemma key_inj g a b : NoDup (map name_key g) -> In a g -> In b g -> name_key a = name_key b -> a = b.
+Proof.
+  induction g as [|x g IH]; simpl; intros Hn Ha Hb He. { tauto. }
+  inversion Hn as [|? ? Hx Hn']; subst. destruct Ha as [<-|Ha]; destruct Hb as [<-|Hb].
+  - reflexivity.
+  - exfalso. apply Hx. rewrite He. apply in_map. exact Hb.
+  - exfalso. apply Hx. rewrite <- He. apply in_map. exact Ha.
+  - exact (IH Hn' Ha Hb He).
+Qed.
+
+Lemma perm_filter {A} (p : A -> bool) l1 l2 : Permutation l1 l2 -> Permutation (filter p l1) (filter p l2).
+Proof.
+  induction 1; simpl.
+  - constructor.
+  - destruct (p x); [constructor|]; assumption.
+  - destruct (p x), (p y); try apply perm_swap; try apply Permutation_refl.
+  - eapply Permutation_trans; eassumption.
+Qed.
+
+Lemma which_repaired_in g m : which_repaired g = Ok m -> In m g.
+Proof.
+  unfold which_repaired, which_with. destruct (unconnected g) as [|x [|y r]] eqn:E; intros H.
+  - destruct g as [|x t]; [discriminate|]. inversion H. apply first_min_spec.
+  - inversion H; subst. assert (Hi : In m (unconnected g)) by (rewrite E; left; reflexivity).
+    unfold unconnected in Hi. apply filter_In in Hi. tauto.
+  - discriminate.
+Qed.
+
+Lemma which_repaired_namer g m : which_repaired g = Ok m -> is_namer g m.
+Proof.
+  intros H. split; [exact (which_repaired_in g m H)|]. revert H.
+  unfold which_repaired, which_with. destruct (unconnected g) as [|x [|y r]] eqn:E; intros H.
+  - right. assert (Hall : forall x, In x g -> pr_conn x = true).
+    { intros x Hx. destruct (pr_conn x) eqn:Ec; [reflexivity|]. assert (Hi : In x (unconnected g)).
+      { unfold unconnected. apply filter_In. rewrite Ec. auto. } rewrite E in Hi. destruct Hi. }
+    split; [exact Hall|]. destruct g as [|x t]; [discriminate|]. inversion H. apply first_min_spec.
+  - left. inversion H; subst. assert (Hi : In m (unconnected g)) by (rewrite E; left; reflexivity).
+    unfold unconnected in Hi. apply filter_In in Hi. destruct Hi as [_ Hc]. split.
+    + destruct (pr_conn m); [discriminate|reflexivity].
+    + intros x Hx Hc'. assert (Hi : In x (unconnected g)) by (unfold unconnected; apply filter_In; rewrite Hc'; auto).
+      rewrite E in Hi. destruct Hi as [<-|[]]. reflexivity.
+  - discriminate.
+Qed.
+
+Lemma which_repaired_perm g1 g2 : Permutation g1 g2 -> NoDup (map name_key g1) -> which_repaired g1 = which_repaired g2.
+Proof.
+  intros HP Hn. pose proof (perm_filter (fun p => negb (pr_conn p)) _ _ HP) as HF.
+  fold (unconnected g1) in HF. fold (unconnected g2) in HF.
+  unfold which_repaired, which_with.
+  destruct (unconnected g1) as [|x1 [|y1 r1]] eqn:E1.
+  - apply Permutation_nil in HF. rewrite HF.
+    destruct g1 as [|a1 t1]; [apply Permutation_nil in HP; rewrite HP; reflexivity|].
+    destruct g2 as [|a2 t2]; [apply Permutation_sym in HP; apply Permutation_nil in HP; discriminate|].
+    f_equal. destruct (first_min_spec t1 a1) as [I1 M1]. destruct (first_min_spec t2 a2) as [I2 M2].
+    set (m1 := first_min pref_ltb a1 t1) in *. set (m2 := first_min pref_ltb a2 t2) in *.
+    assert (I2' : In m2 (a1 :: t1)) by (apply (Permutation_in _ (Permutation_sym HP)); exact I2).
+    assert (I1' : In m1 (a2 :: t2)) by (apply (Permutation_in _ HP); exact I1).
+    destruct (pref_leb_antisym m1 m2 (M1 _ I2') (M2 _ I1')) as [A B].
+    apply (key_inj (a1 :: t1)); auto. unfold name_key. rewrite A, B. reflexivity.
+  - destruct (unconnected g2) as [|x2 [|y2 r2]] eqn:E2.
+    + apply Permutation_sym in HF. apply Permutation_nil in HF. discriminate.
+    + apply Permutation_length_1 in HF. rewrite HF. reflexivity.
+    + apply Permutation_length in HF. simpl in HF. discriminate.
+  - destruct (unconnected g2) as [|x2 [|y2 r2]] eqn:E2.
+    + apply Permutation_sym in HF. apply Permutation_nil in HF. discriminate.
+    + apply Permutation_length in HF. simpl in HF. discriminate.
+    + reflexivity.
+Qed.
+
+(* ------------------------------------------------------------------ update_ref_deps; small helpers for Props *)
+Lemma keys_assign k v c : keys (assign k v c) = if mem k (keys c) then keys c else keys c ++ [k].
+Proof.
+  induction c as [|[k' v'] c IH]; simpl. { reflexivity. }
+  destruct (String.eqb k k') eqn:E; simpl.
+  - apply String.eqb_eq in E. subst. reflexivity.
+  - rewrite IH. fold (mem k (keys c)). destruct (mem k (keys c)); reflexivity.
+Qed.
+
+Lemma replace_keeps_keys v pi : forall c c', run_loop (step_replace v) pi c = Ok c' -> keys c' = keys c.
+Proof.
+  induction pi as [|k pi IH]; simpl; intros c c' H. { inversion H; reflexivity. }
+  unfold step_replace in H. destruct (mem k (keys c)) eqn:E; simpl in H; [|discriminate].
+  rewrite (IH _ _ H), keys_assign, E. reflexivity.
+Qed.
+
+Fixpoint nodup_pairs (l : list (string * string)) : bool :=
+  match l with
+  | [] => true
+  | (a, b) :: t => negb (existsb (fun y => String.eqb a (fst y) && String.eqb b (snd y)) t) && nodup_pairs t
+  end.
+
+Lemma nodup_pairs_spec l : nodup_pairs l = true -> NoDup l.
+Proof.
+  induction l as [|[a b] l IH]; simpl; intros H; constructor; apply andb_prop in H; destruct H as [A B].
+  - intro Hi. destruct (existsb (fun y => String.eqb a (fst y) && String.eqb b (snd y)) l) eqn:E; [discriminate|].
+    assert (X : existsb (fun y => String.eqb a (fst y) && String.eqb b (snd y)) l = true).
+    { apply existsb_exists. exists (a, b). simpl. rewrite !String.eqb_refl. auto. }
+    congruence.
+  - exact (IH B).
+Qed.
+
+Fixpoint Corr_eq (a b : list string) : bool :=
+  match a, b with
+  | [], [] => true
+  | x :: a', y :: b' => String.eqb x y && Corr_eq a' b'
+  | _, _ => false
+  end.
